@@ -34,6 +34,7 @@ RULE = ('random FeatureLists / BioBaskets of 0-8 elements drawn from small pools
         'middle / round robin; half of the fixed set runs first thing in the process, half last) and per seed shuffled; every object '
         'carries DIFFERENT values at every place a key can live (metadata, instance attributes, attributes of the wrapped re.Match, a '
         '.meta attribute on a BioMatch), so a getter looking in the wrong place or kept from another collection answers wrongly at once; '
+        'about a third of the groupby / filter steps are followed by a groupby on the SAME collection object after it grew by 1-2 objects (same keys or new ones); key tuples also as list and iterator; '
         'interleaved find_orfs / matchall steps (they group their own collections internally) whose results are grouped / sorted / '
         'filtered / attached to a basket and compared with the partition by the values read directly off the returned objects; '
         'non-trivial = distinct case whose result is neither empty nor the unchanged input')
@@ -675,7 +676,24 @@ def g_xhist(rng, mode):
             for i, x in enumerate(xs):
                 x['_i'] = i
             st['xs'] = xs
-            by_kind[K].append(st)
+            unit = [st]
+            if op != 'sort' and rng.random() < 0.35:
+                # the SAME collection object again after it grew by some objects: same keys (a kept answer would show) or new ones
+                extra = [dict(rng.choice(pool)) for _ in range(rng.choice([1, 1, 2]))]
+                for i, x in enumerate(extra):
+                    x['_i'] = len(xs) + i
+                st2 = {'s': 'groupby', 'K': K, 'xs': [dict(x) for x in xs] + extra, 'reuse': len(xs)}
+                if op == 'groupby' and rng.random() < 0.6:
+                    st2['keys'] = st['keys']
+                    for a in ('via', 'kform'):
+                        if a in st:
+                            st2[a] = st[a]
+                else:
+                    st2['keys'] = g_xkeys(rng, K, knames, False)
+                    if any(isinstance(k, dict) and k['c'] == 'lower' for k in st2['keys'].get('t', [st2['keys'].get('one')])) and not full:
+                        st2['keys'] = {'s': knames[0]}
+                unit.append(st2)
+            by_kind[K].append(unit)
     if mode == 0:
         steps = by_kind['ml'] + by_kind['fl'] + by_kind['bb']
     elif mode == 1:
@@ -688,8 +706,8 @@ def g_xhist(rng, mode):
         steps = by_kind['ml'] + by_kind['fl'] + by_kind['bb']
         rng.shuffle(steps)
     for _ in range(rng.choice([0, 1, 1, 2])):
-        steps.insert(rng.randrange(len(steps) + 1), g_xoracle(rng, names))
-    return {'_op': 'xhist', 'xsteps': steps}
+        steps.insert(rng.randrange(len(steps) + 1), [g_xoracle(rng, names)])
+    return {'_op': 'xhist', 'xsteps': [st for unit in steps for st in unit]}
 
 
 def gen_cases(rng, tier):
@@ -1343,8 +1361,10 @@ def _impl_xhist(case):
     from sugar.core.cane import BioMatchList
     from framework import canon_exc
     out, orc = [], []
+    prev = None
     for st in case['xsteps']:
         if st['s'] in ('orfs', 'mall'):
+            prev = None
             try:
                 orc.append(_xoracle_step(st))
             except Exception as e:
@@ -1353,10 +1373,17 @@ def _impl_xhist(case):
         try:
             K = st['K']
             cls = {'fl': FeatureList, 'bb': BioBasket, 'ml': BioMatchList}[K]
-            objs = [_xbuild(e) for e in st['xs']]
+            if st.get('reuse') is not None and prev is not None and type(prev[0]) is cls and len(prev[1]) == st['reuse']:
+                c, objs = prev[0], list(prev[1])               # the collection of the step before, grown by some objects
+                more = [_xbuild(e) for e in st['xs'][st['reuse']:]]
+                c.data.extend(more)
+                objs += more
+            else:
+                objs = [_xbuild(e) for e in st['xs']]
+                c = cls(objs)
             ident = {id(o): e['_i'] for o, e in zip(objs, st['xs'])}
             ix = lambda l: [ident.get(id(o), -1) for o in l]
-            c = cls(objs)
+            prev = (c, objs) if st['s'] != 'sort' else None
             if st['s'] == 'groupby':
                 d = c.d if st.get('via') == 'd' else c.groupby(*_xpykeys(st['keys'], K == 'ml', st.get('kform', 'tuple')))
 
@@ -1833,7 +1860,9 @@ def spec(case, got):
             for e in es:
                 if _tag(fns[d](e)) not in [_tag(k) for k in keys]:
                     keys.append(fns[d](e))
-            if not isinstance(node, list) or [_tag(kv[0]) for kv in node] != [_tag(k) for k in keys]:
+            if not isinstance(node, list) or not all(isinstance(kv, list) and len(kv) == 2 for kv in node):
+                return 'at depth %d there is %r instead of a dict of groups (keys expected: %r)' % (d, node, keys)
+            if [_tag(kv[0]) for kv in node] != [_tag(k) for k in keys]:
                 return 'group keys at depth %d are %r, expected %r (first-occurrence order)' % (d, [kv[0] for kv in node], keys)
             for k, sub in node:
                 r = chk(sub, [e for e in es if _tag(fns[d](e)) == _tag(k)], d + 1)
@@ -1953,7 +1982,7 @@ def histkey(case, got):
     op = case['_op']
     if op == 'xhist':
         hk = ['op=xhist', 'steps=%d' % len(case['xsteps'])]
-        hk += ['xstep=%s/%s' % (st['s'], st.get('K') or st.get('op') or 'groupby') for st in case['xsteps']]
+        hk += ['xstep=%s/%s%s' % (st['s'], st.get('K') or st.get('op') or 'groupby', '/same-object-grown' if st.get('reuse') is not None else '') for st in case['xsteps']]
         hk.append('xorder=' + ''.join(dict.fromkeys(st.get('K', 'o')[0] for st in case['xsteps'])))
         if isinstance(got, dict) and any(isinstance(v, dict) for v in got.get('m', [])):
             hk.append('raises=in-step')
@@ -2040,7 +2069,10 @@ def _xsnippet(case):
                   'basket': 'b = BioBasket([BioSeq("A", id="q1"), BioSeq("ACGT", id="q2"), BioSeq("AC", id="q1")]); b.fts = orfs; print(b.groupby("id"))\n'}[st['op']]
         else:
             cls = {'fl': 'FeatureList', 'bb': 'BioBasket', 'ml': 'BioMatchList'}[st['K']]
-            s += 'x = %s([%s])\n' % (cls, ', '.join(pe(e) for e in st['xs']))
+            if st.get('reuse') is not None:
+                s += 'x.data.extend([%s])   # the same collection object, grown\n' % ', '.join(pe(e) for e in st['xs'][st['reuse']:])
+            else:
+                s += 'x = %s([%s])\n' % (cls, ', '.join(pe(e) for e in st['xs']))
             if st['s'] == 'groupby':
                 s += 'print(x.d)\n' if st.get('via') == 'd' else 'print(x.groupby(%s))\n' % kf(pk(st['keys'], st['K'] == 'ml'), st)
             elif st['s'] == 'sort':
